@@ -175,12 +175,12 @@ func (g *Gen) badAmount(p int) string {
 	return Pick(g.R, []string{"0", "-1", "", "abc", "0." + strings.Repeat("0", p) + "1", "1." + strings.Repeat("1", p+1), "NaN", "Infinity", "1e-7", "-0", "0.0", "1e40"})
 }
 
-var jurisdictions = []string{"US", "US-WA", "US-WA 98225", "KE", "DE-BE", "AU-NSW 2000"}
+var jurisdictions = []string{"US", "US-WA", "US-WA 98225", "KE", "DE-BE", "AU-NSW 2000", "GB-ENG SW1A 1AA", "FR-75C 75001", "KE-30 a-very-long-postal-code-with-up-to-sixty-four-characters-in-it-0"}
 
 func (g *Gen) jurisdiction() string { return Pick(g.R, jurisdictions) }
 
 func (g *Gen) metadata() string {
-	return Pick(g.R, []string{"", "regen:13toVgf5UjYBz6J29gnPFrMkKVtTPSEhPKAkjK8kq1jwJNrgzhfeaQ8.rdf", "meta", "m" + fmt.Sprint(g.R.Intn(1000)), strings.Repeat("x", 250)})
+	return Pick(g.R, []string{"", "regen:13toVgf5UjYBz6J29gnPFrMkKVtTPSEhPKAkjK8kq1jwJNrgzhfeaQ8.rdf", "meta", "m" + fmt.Sprint(g.R.Intn(1000)), strings.Repeat("x", 250), strings.Repeat("x", 256), "méta \u2028 \"q\" \\ 日本", strings.Repeat("é", 128)})
 }
 
 func (g *Gen) reason() string {
